@@ -6,6 +6,8 @@ import Monorail.Driver.Exec
 import Monorail.Driver.Store
 import Monorail.Driver.Log
 import Monorail.Driver.Git
+import Monorail.Driver.Cfg
+import Monorail.Driver.Lock
 open Lean Monorail.Driver
 
 def dispatch (j : Json) : Except String Json := do
@@ -19,6 +21,8 @@ def dispatch (j : Json) : Except String Json := do
   | "store" => handleStore j
   | "reader" => handleReader j
   | "git" => handleGit j
+  | "cfgcheck" => handleCfgCheck j
+  | "lock" => handleLock j
   | "execcheck" => handleExecCheck j
   | "groups" => handleGroups j
   | "ping" => pure (Json.mkObj [("pong", true)])
